@@ -170,9 +170,11 @@ Fixpoint node_size (fuel : nat) (n : node) : nat :=
 Definition tree_depth_bound (t : tree) : nat := S (length t + 64).
 
 (* names of templates that have pending edits *)
+Definition dedup_bytes (l : list bytes) : list bytes :=
+  fold_right (fun x acc => if mem_bytes x acc then acc else x :: acc) [] l.
 Definition edited_names (e : escaper) : list bytes :=
-  map (fun kv => fst (fst kv)) (e_action_edits e) ++ map (fun kv => fst (fst kv)) (e_template_edits e)
-  ++ map (fun kv => fst (fst kv)) (e_text_edits e).
+  dedup_bytes (map (fun kv => fst (fst kv)) (e_action_edits e) ++ map (fun kv => fst (fst kv)) (e_template_edits e)
+               ++ map (fun kv => fst (fst kv)) (e_text_edits e)).
 
 (* commit, for the name space nsid *)
 Definition commit (w : world) (nsid : nat) : world :=
@@ -183,10 +185,13 @@ Definition commit (w : world) (nsid : nat) : world :=
       let tid := h_text (get_tmpl w o) in
       let e := n_esc ns in
       (* derived templates are added to the text association *)
-      let w := fold_left (fun w kv => match snd kv with
-                                      | Some tr => add_parse_tree w tid (fst kv) tr
-                                      | None => w
-                                      end) (e_derived e) w in
+      (* e.derived is never cleared: a derived template committed earlier is re-added with the
+         very same (already rewritten, shared by pointer) tree, which changes nothing *)
+      let w := fold_left (fun w kv =>
+                            match snd kv, assoc_get (fst kv) (get_common w (x_common (get_text w tid))) with
+                            | Some tr, None => add_parse_tree w tid (fst kv) tr
+                            | _, _ => w
+                            end) (e_derived e) w in
       (* edits are applied to the trees of the (now registered) templates *)
       let cid := x_common (get_text w tid) in
       let w := fold_left (fun w name =>
@@ -333,7 +338,10 @@ Definition step (w : world) (o : op) : world * rclass :=
               (* text Clone: new common; own name -> copy of t.text; others -> copies *)
               let '(w1, cid) := new_common w in
               let '(w1, ntid) := new_text w1 (mktext (x_name x) (x_tree x) cid) in
-              let w1 := put_common w1 cid [(x_name x, ntid)] in
+              let w1 := match assoc_get (x_name x) (get_common w1 (x_common x)) with
+                        | Some _ => put_common w1 cid [(x_name x, ntid)]
+                        | None => w1
+                        end in
               let w1 := fold_left (fun w kv =>
                           if bytes_eqb (fst kv) (x_name x) then w
                           else let src := get_text w (snd kv) in
